@@ -14,7 +14,7 @@ RULE = (
     "hidden state (key differs from the parent's)."
 )
 BOUNDS = {
-    "quick": "family A: 29 merge-free op instances, all histories of depth <= 4 from 5 initial lists (de-duplicated); family B: histories with one merge (7 merge instances incl. 3-input merges) after <=1 merge-free step, followed by <=1 more step",
+    "quick": "family A: 35 merge-free op instances, all histories of depth <= 4 from 5 initial lists (de-duplicated); family B: histories with one merge (7 merge instances incl. 3-input merges) after <=1 merge-free step, followed by <=1 more step",
     "thorough": "family A: BFS to the fixpoint (measured: 49 363 states, 1.38M transitions, closes at depth 15); family B: histories of <= 4 operations with <= 2 merges, first merge after <= 2 merge-free steps",
 }
 ASSUMPTIONS = [
@@ -71,9 +71,9 @@ def operand_B(seed):
 MERGE_FREE = (
     [("subset", f, v) for f, v in [
         ("tomo_id", 1.0), ("tomo_id", (1.0, 2.0)), ("tomo_id", (2.0, 1.0)), ("tomo_id", 9.0), ("object_id", 1.0),
-        ("object_id", (2.0, 1.0)), ("class", 1.0), ("class", (2.0, 1.0))]]
-    + [("remove", f, v) for f, v in [("tomo_id", 1.0), ("tomo_id", (1.0, 2.0)), ("object_id", (2.0,)), ("class", 1.0), ("class", 9.0)]]
-    + [("split", f, i) for f, i in [("tomo_id", 0), ("tomo_id", 1), ("object_id", 0), ("object_id", 1), ("class", 0)]]
+        ("object_id", (2.0, 1.0)), ("class", 1.0), ("class", (2.0, 1.0)), ("geom1", 1.25), ("score", (0.5, 0.4))]]
+    + [("remove", f, v) for f, v in [("tomo_id", 1.0), ("tomo_id", (1.0, 2.0)), ("object_id", (2.0,)), ("class", 1.0), ("class", 9.0), ("geom1", (3.5, 1.0)), ("subtomo_id", 36.0)]]
+    + [("split", f, i) for f, i in [("tomo_id", 0), ("tomo_id", 1), ("object_id", 0), ("object_id", 1), ("class", 0), ("geom1", 1), ("score", 0)]]
     + [("intersect", "A", "subtomo_id"), ("intersect", "B", "subtomo_id"), ("intersect", "A", "tomo_id")]
     + [("dropdup", "subtomo_id", "score", False), ("dropdup", "subtomo_id", "score", True), ("dropdup", "object_id", "geom1", True)]
     + [("renumber_particles",), ("renumber_objects", 1), ("renumber_objects", 5), ("load_copy",)]
